@@ -23,6 +23,11 @@ CONSTANTS
   RepeatedVals = {TRUE, FALSE}
   Modules = TRUE
   BindOps = TRUE
+  MDenoms = {"stake"}
+  InitBtc = 0
+  RateN = 0
+  RateD = 1
+  RateVals <- RateValsNone
   SetupSpec <- SetupA
   ProvSeqs <- ProvSeqsB
   UpdateSpecs <- UpdateSpecsA
